@@ -176,6 +176,17 @@ class MediaSegment(DashElement):
         if not self.elt.check_not_none(
                 moov, msg='Failed to get MOOV box from init segment'):
             return
+        default_sample_duration: int | None = None
+        try:
+            default_sample_duration = moov.mvex.trex.default_sample_duration
+        except AttributeError:
+            pass
+        if default_sample_duration is None:
+            for sample in moof.traf.trun.samples:
+                if sample.duration is None:
+                    self.elt.add_error(
+                        'Sample duration is missing and the init segment has no trex box')
+                    return
         pts_values: set[int] = set()
         dts: int = moof.traf.tfdt.base_media_decode_time
         for sample in moof.traf.trun.samples:
@@ -189,7 +200,7 @@ class MediaSegment(DashElement):
             self.elt.check_not_in(pts, pts_values)
             pts_values.add(pts)
             if sample.duration is None:
-                samp_dur = moov.mvex.trex.default_sample_duration
+                samp_dur = default_sample_duration
             else:
                 samp_dur = sample.duration
             dts += samp_dur
